@@ -468,7 +468,7 @@ class Interp:
         self.verifying = None  # FuncInfo under verification (calls to it are never replaced by contract at depth 0)
         self.verifying_contract = None
         self.loop_specs = {}
-        self.stats = {"calls_inlined": set(), "calls_by_contract": set(), "stubs_used": set()}
+        self.stats = {"calls_inlined": set(), "calls_by_contract": set(), "stubs_used": set(), "assumed": set()}
 
     # ------------------------------------------------------------------ values
     def fresh_value(self, t, name):
@@ -956,10 +956,11 @@ class Interp:
             if i == len(n.values) - 1:
                 return v
             t = self.branch(v)
+            # `a or b` / `a and b` yield the OPERAND that decided, not its truth value (only for a boolean the two coincide)
             if is_and and not t:
-                return v if not is_sym(v) else False
+                return False if isinstance(v, z3.BoolRef) else (self.force(v) if isinstance(v, SOpt) else v)
             if not is_and and t:
-                return v if not is_sym(v) else True
+                return True if isinstance(v, z3.BoolRef) else (self.force(v) if isinstance(v, SOpt) else v)
         return v
 
     def ev_UnaryOp(self, n, fr):
@@ -1263,6 +1264,10 @@ class Interp:
                     obj.items.append(x)
                 else:
                     obj.items = obj.items.append(self.as_pair(x))
+                return None
+            if name == "clear":
+                if not isinstance(obj.items, Opaque):
+                    obj.items = []
                 return None
             if name == "extend":
                 (other,) = args
